@@ -15,9 +15,19 @@ def fmat(a):
 
 def check(run, driver):
     from causationentropy.core.information.conditional_mutual_information import conditional_mutual_information as dispatcher
+    from common import EntryPoints as _EP     # the star re-exports of causationentropy.core.information are public paths too
+    dispatcher = _EP("conditional_mutual_information", "causationentropy.core.information.conditional_mutual_information", "causationentropy.core.information")
     from causationentropy.core.information.conditional_mutual_information import kde_conditional_mutual_information, knn_conditional_mutual_information
+    from common import EntryPoints as _EP     # the star re-exports of causationentropy.core.information are public paths too
+    kde_conditional_mutual_information = _EP("kde_conditional_mutual_information", "causationentropy.core.information.conditional_mutual_information", "causationentropy.core.information")
+    knn_conditional_mutual_information = _EP("knn_conditional_mutual_information", "causationentropy.core.information.conditional_mutual_information", "causationentropy.core.information")
     from causationentropy.core.information.entropy import kde_entropy
+    from common import EntryPoints as _EP     # the star re-exports of causationentropy.core.information are public paths too
+    kde_entropy = _EP("kde_entropy", "causationentropy.core.information.entropy", "causationentropy.core.information")
     from causationentropy.core.information.mutual_information import kde_mutual_information, knn_mutual_information
+    from common import EntryPoints as _EP     # the star re-exports of causationentropy.core.information are public paths too
+    kde_mutual_information = _EP("kde_mutual_information", "causationentropy.core.information.mutual_information", "causationentropy.core.information")
+    knn_mutual_information = _EP("knn_mutual_information", "causationentropy.core.information.mutual_information", "causationentropy.core.information")
 
     run.rule = (
         "tie-free continuous samples: N in 8..60 (quick: <=32), dims 1..3 per block, k in 1..min(10,N-1), three metrics, with and without Z; "
